@@ -221,8 +221,10 @@ class PktGen:
         nopt = d(st.integers(1, 3))
         keys = list(range(nopt)) if style == "list" else d(st.lists(st.integers(0, 9), min_size=nopt, max_size=nopt, unique=True))
         options = []
+        # profile option refsel_pktbias: that fraction of the selectors over earlier packets has ONLY pre-built packets as options
+        allpkt = bool(self.prof.get("refsel_pktbias")) and bool(self.earlier) and chance(d, self.prof["refsel_pktbias"])
         for kk in keys:
-            t = d(st.integers(0, 3 if self.earlier else 2))
+            t = 3 if allpkt else d(st.integers(0, 3 if self.earlier else 2))
             if t == 0:
                 o = ["field", {"k": "int", "name": "_", "n": d(st.sampled_from([1, 2, 3, 4])), "signed": chance(d, 0.3),
                                "endian": d(st.sampled_from(["big", "little"]))}]
